@@ -21,6 +21,9 @@ struct Shared {
     writes: Vec<usize>,
     flushes: u64,
     closed_by_server: bool,
+    /// client-side waker: woken on every write, on going idle and on close (multi-thread legs)
+    client_waker: Option<Waker>,
+    gen: u64,
 }
 
 pub struct ScriptedStream(Arc<Mutex<Shared>>);
@@ -33,6 +36,10 @@ impl Drop for ScriptedStream {
         let mut s = self.0.lock().unwrap();
         s.closed_by_server = true;
         s.idle = true;
+        s.gen += 1;
+        if let Some(w) = s.client_waker.take() {
+            w.wake();
+        }
     }
 }
 
@@ -55,6 +62,10 @@ impl AsyncRead for ScriptedStream {
         }
         s.reader_waker = Some(cx.waker().clone());
         s.idle = true;
+        s.gen += 1;
+        if let Some(w) = s.client_waker.take() {
+            w.wake();
+        }
         Poll::Pending
     }
 }
@@ -64,6 +75,10 @@ impl AsyncWrite for ScriptedStream {
         let mut s = self.0.lock().unwrap();
         s.out.extend_from_slice(data);
         s.writes.push(data.len());
+        s.gen += 1;
+        if let Some(w) = s.client_waker.take() {
+            w.wake();
+        }
         Poll::Ready(Ok(data.len()))
     }
     fn poll_flush(self: Pin<&mut Self>, _cx: &mut Context<'_>) -> Poll<std::io::Result<()>> {
@@ -133,6 +148,15 @@ impl Controller {
             }
         }
     }
+    /// Resolves when the server side has written something, gone idle or closed since the call
+    /// (no polling loop: the stream wakes the registered client waker).
+    pub fn changed(&self, since: u64) -> Changed {
+        Changed(self.0.clone(), since)
+    }
+    /// generation counter of server-side events; read it *before* inspecting the output
+    pub fn gen(&self) -> u64 {
+        self.0.lock().unwrap().gen
+    }
     pub fn take_output(&self) -> Vec<u8> {
         std::mem::take(&mut self.0.lock().unwrap().out)
     }
@@ -142,6 +166,19 @@ impl Controller {
     pub fn stats(&self) -> (u64, usize, u64) {
         let s = self.0.lock().unwrap();
         (s.reads, s.writes.len(), s.flushes)
+    }
+}
+
+pub struct Changed(Arc<Mutex<Shared>>, u64);
+impl std::future::Future for Changed {
+    type Output = ();
+    fn poll(self: Pin<&mut Self>, cx: &mut Context<'_>) -> Poll<()> {
+        let mut s = self.0.lock().unwrap();
+        if s.gen != self.1 {
+            return Poll::Ready(());
+        }
+        s.client_waker = Some(cx.waker().clone());
+        Poll::Pending
     }
 }
 
